@@ -10,10 +10,10 @@ def gen_context_keys(repo):
     key = X._c_string_literal(m.group(1))
     scope = X._strip_comments(X._read(repo, 'api/include/opentelemetry/trace/scope.h'))
     if not re.search(r'Attach\s*\(\s*context::RuntimeContext::GetCurrent\s*\(\s*\)\s*\.\s*SetValue\s*\(\s*kSpanKey\s*,\s*span\s*\)', scope):
-        raise X.ExtractError('scope.h: Scope no longer attaches GetCurrent().SetValue(kSpanKey, span)')
+        raise X.ShapeChanged('scope.h: Scope no longer attaches GetCurrent().SetValue(kSpanKey, span)')
     tracer = X._strip_comments(X._read(repo, 'api/include/opentelemetry/trace/tracer.h'))
     if not re.search(r'GetCurrentSpan\s*\(\s*\)[^{]*\{[^}]*RuntimeContext::GetValue\s*\(\s*kSpanKey\s*\)', tracer, re.S):
-        raise X.ExtractError('tracer.h: GetCurrentSpan no longer reads RuntimeContext::GetValue(kSpanKey)')
+        raise X.ShapeChanged('tracer.h: GetCurrentSpan no longer reads RuntimeContext::GetValue(kSpanKey)')
     return (X.HDR + '\nnamespace Otel.Gen\n\n'
             '/-- `kSpanKey` of `api/include/opentelemetry/trace/span_metadata.h` (used by `Scope` and `Tracer::GetCurrentSpan`) -/\n'
             f'def ctxSpanKey : List UInt8 := {X.lean_bytes(key)}\n\nend Otel.Gen\n')
